@@ -129,7 +129,8 @@ fn render_argv(a: &[(String, String)]) -> Vec<String> {
         if !rep.is_empty() {
             for x in val.split(',') {
                 v.push(rep.to_string());
-                v.push(x.to_string());
+                // `%2C` stands for a comma INSIDE one value (a hook script such as "logger -t vpncloud connected,up")
+                v.push(x.replace("%2C", ","));
             }
         } else if !boolflag.is_empty() && val == "true" {
             v.push(boolflag.to_string());
